@@ -31,10 +31,10 @@ from vlib import cz, cn, cbool, clist, cbytes
 PID = "C24"
 AREA = "Repl"
 P = "Arc.Repl.Props"
-THEOREMS = [(P, "C24_applied_sound"), (P, "C24_unforgeable_covers_edits"), (P, "C24_gap_free_when_ordered"),
+THEOREMS = [(P, "C24_applied_sound"), (P, "C24_unforgeable_covers_edits"), (P, "C24_checkpoint_binds"), (P, "C24_gap_free_when_ordered"),
             (P, "C24_writer_seq_exactly_once"), (P, "C24_writer_order_refuted"), (P, "C24_healthy_connection_dropped"),
             (P, "C24_writer_order_guarded"), (P, "C24_writer_order_fixed"), (P, "C24_complete"),
-            (P, "C24_case_in_domain"), (P, "C24_oracle_meaning")]
+            (P, "C24_case_in_domain"), (P, "C24_oracle_meaning"), (P, "C24_agreeing_receiver_is_sound")]
 MODULES = [P]
 TIE_NAME = ("C24 correspondence (wal.Writer hook + replication.Sender + Receiver.receiveLoop under forced schedules "
             "and a frame-rewriting adversary vs Arc.Repl.Model.run_sched/send_all/recv)")
@@ -121,7 +121,7 @@ def run_harness(cases, tag):
     if len(res) != len(cases):
         raise vlib.TieBroken("C24 harness returned %d results for %d cases" % (len(res), len(cases)))
     for r in res:                                   # Go nil slices arrive as null
-        for k in ("events", "frames", "chan", "dropped", "wire", "skipped_ops", "atts"):
+        for k in ("events", "frames", "chan", "dropped", "wire", "skipped_ops", "atts", "blocked_in"):
             if r.get(k) is None:
                 r[k] = []
         if r.get("other_tags") is None:
@@ -211,7 +211,25 @@ def rand_payload(rng):
 JUNK_TAGS = ["", "abcd", "00112233445566778", "zzzzzzzzzzzzzzzz", "0123456789abcdef", "00000000000000000000"]
 
 
-def gen_edits(rng, nframes):
+def frame_layout(c):
+    """Indices of entry frames and checkpoint frames the unedited stream will have (python mirror:
+    number of distribution steps, one checkpoint after every `interval` entries)."""
+    nsent = sum(1 for s in sanitize(c)["sched"] if s == DIST)
+    ent, cps, pos = [], [], 0
+    for k in range(1, nsent + 1):
+        ent.append(pos)
+        pos += 1
+        if k % max(c["interval"], 1) == 0:
+            cps.append(pos)
+            pos += 1
+    return ent, cps, pos
+
+
+CP_KINDS = ("cp_set", "cp_from", "cp_replay")
+
+
+def gen_edits(rng, c):
+    ent, cps, nframes = frame_layout(c)
     ops = []
     k = rng.choice([1, 1, 1, 2, 2, 3])
     hi = max(nframes, 1)
@@ -219,7 +237,15 @@ def gen_edits(rng, nframes):
         i, j = rng.randrange(hi), rng.randrange(hi + 1)
         kind = rng.choice(["drop", "dup", "swap", "move", "flip_payload", "set_seq", "tag", "tag_upper", "tag_from",
                            "tag_other_session", "raw_flip", "raw_truncate", "set_type", "insert_raw", "insert_broken",
-                           "cp_set", "cp_from", "cp_replay", "truncate", "set_payload", "set_ts", "dup_adjacent"])
+                           "cp_set", "cp_set", "cp_from", "cp_replay", "truncate", "set_payload", "set_ts", "dup_adjacent"])
+        if kind in CP_KINDS and cps and rng.random() < 0.9:
+            i = rng.choice(cps)
+            if kind == "cp_from" and rng.random() < 0.7:
+                j = rng.choice(cps)
+        elif kind in ("flip_payload", "set_seq", "tag", "tag_upper", "tag_from", "tag_other_session", "set_payload", "set_ts") and ent and rng.random() < 0.9:
+            i = rng.choice(ent)
+            if kind == "tag_from" and rng.random() < 0.7:
+                j = rng.choice(ent)
         if kind == "dup_adjacent":
             ops.append({"op": "dup", "i": i, "j": i + 1})
         elif kind == "cp_replay":
@@ -287,11 +313,10 @@ def gen_case(rng, cid, atomic):
         writers.append(w)
     cap = rng.choice([1, 1, 2, 3, 4, 8, 64, 10000])
     interval = rng.choice([1, 2, 2, 3, 3, 5, 8, 1024])
-    shape = rng.choice(["random", "random", "assign_first", "assign_first", "sequential", "starved", "eager"])
+    shape = rng.choice(["random", "random", "assign_first", "sequential", "sequential", "sequential", "starved", "eager"])
     sched = gen_schedule(rng, writers, cap, atomic, shape)
     honest = rng.random() < 0.35
-    nframes_guess = n + n // max(interval, 1)
-    edits = [] if honest else gen_edits(rng, nframes_guess)
+    edits = [] if honest else gen_edits(rng, {"atomic": atomic, "cap": cap, "interval": interval, "writers": writers, "sched": sched})
     recv = {"last0": 0, "key": "same", "secret": "same", "cluster": "same", "skew": 0, "outcomes": [], "localwal": rng.random() < 0.3}
     r = rng.random()
     if r < 0.10:
@@ -303,6 +328,9 @@ def gen_case(rng, cid, atomic):
         recv["secret"] = "other"
     elif r < 0.10:
         recv["cluster"] = "other"
+    if recv["key"] == "other":
+        # a tag computed under the RECEIVER's session key would be a forgery, outside the idealised-MAC hypothesis
+        edits = [e for e in edits if e["op"] != "tag_other_session"]
     if rng.random() < 0.15:
         recv["skew"] = rng.choice([200, -200, 400, -400, 100000])
     if rng.random() < 0.2:
@@ -319,8 +347,102 @@ def witness_case(cid, atomic, probe=False):
          "recv": {"last0": 0, "key": "same", "secret": "same", "cluster": "same", "skew": 0, "outcomes": [], "localwal": False},
          "shape": "witness"}
     if probe:
-        c["step_ms"] = 400
+        c["step_ms"] = 1000
     return c
+
+
+def seq_sched(writers, atomic, drain=True):
+    sched = []
+    for i, w in enumerate(writers):
+        sched += [i] * steps_of(w["kind"], atomic)
+    return sched + ([DIST] * len(writers) if drain else [])
+
+
+def branch_cases(atomic):
+    """One deterministic case per branch of receiveLoop / sendToReader / Replicate: four writers
+    in sequence (direct, wal, walmeta, direct), interval 2 -> frames e1 e2 cp e3 e4 cp, then one
+    edit (or one receiver configuration) aimed at the branch."""
+    writers = [{"kind": "direct", "db": "", "payload": "aa01"}, {"kind": "wal", "db": "", "payload": "bb02bb"},
+               {"kind": "walmeta", "db": "db", "payload": "cc03"}, {"kind": "direct", "db": "", "payload": ""}]
+    recv0 = {"last0": 0, "key": "same", "secret": "same", "cluster": "same", "skew": 0, "outcomes": [], "localwal": False}
+    out = []
+
+    def add(edits=(), **rv):
+        out.append({"id": 0, "atomic": atomic, "cap": 10, "interval": 2, "writers": writers, "sched": seq_sched(writers, atomic),
+                    "edits": list(edits), "recv": dict(recv0, **rv), "shape": "branch"})
+
+    add()
+    for v in ["", "abcd", "zzzzzzzzzzzzzzzz", "0123456789abcdef", "\u00e9\u00e9\u00e9\u00e9\u00e9\u00e9\u00e9\u00e9"]:
+        add([{"op": "tag", "i": 1, "v": v}])
+    add([{"op": "tag_upper", "i": 1}])
+    add([{"op": "tag_from", "i": 1, "j": 0}])
+    add([{"op": "tag_other_session", "i": 1}])
+    for n in (0, 1, 2, 7, 2 ** 64 - 1):
+        add([{"op": "set_seq", "i": 1, "n": n}])
+    add([{"op": "flip_payload", "i": 1, "k": 0, "j": 0}])
+    add([{"op": "flip_payload", "i": 4, "k": 0, "j": 0}])            # empty payload gains a byte
+    add([{"op": "set_payload", "i": 0, "v": ""}])
+    add([{"op": "set_ts", "i": 0, "n": 12345}])                        # timestamp is not authenticated and not used
+    add([{"op": "dup", "i": 0, "j": 1}])
+    add([{"op": "dup", "i": 1, "j": 4}])
+    add([{"op": "swap", "i": 0, "j": 1}])
+    add([{"op": "swap", "i": 3, "j": 4}])
+    add([{"op": "move", "i": 3, "j": 0}])
+    add([{"op": "drop", "i": 0}])                                      # e2 accepted, checkpoint hash differs
+    add([{"op": "drop", "i": 1}])                                      # checkpoint sequence differs
+    add([{"op": "drop", "i": 2}])                                      # a lost checkpoint is harmless
+    add([{"op": "drop", "i": 3}])
+    add([{"op": "truncate", "i": 3}])
+    add([{"op": "truncate", "i": 0}])
+    for f, v in [("cluster", "other-cluster"), ("cluster", ""), ("sender", "writer-2"), ("nonce", "x"), ("hash", ""), ("hash", "ab" * 31),
+                 ("hash", "zz" * 32), ("hash", "ab" * 32), ("hash", "0" * 65), ("hmac", ""), ("hmac", "00" * 32), ("hmac", "zz"), ("hash_upper", "")]:
+        add([{"op": "cp_set", "i": 2, "field": f, "v": v}])
+    for f, n in [("last_seq", 1), ("last_seq", 3), ("last_seq", 0), ("timestamp", 1_700_000_000), ("timestamp", 0)]:
+        add([{"op": "cp_set", "i": 2, "field": f, "n": n}])
+    for f in ("hash", "hmac", "nonce", "last_seq", "timestamp"):
+        add([{"op": "cp_from", "i": 2, "j": 5, "field": f}])
+        add([{"op": "cp_from", "i": 5, "j": 2, "field": f}])
+    add([{"op": "dup", "i": 2, "j": 3}])                               # checkpoint replayed at once: accepted
+    add([{"op": "dup", "i": 2, "j": 6}])                               # replayed later: stale
+    add([{"op": "dup", "i": 2, "j": 0}])
+    add([{"op": "move", "i": 5, "j": 3}])
+    add([{"op": "swap", "i": 2, "j": 5}])
+    for ty, body in [(0x1F, '{"code":"BUFFER_FULL","message":"x"}'), (0x1F, '{"code":'), (0x11, '{"last_seq":1,"reader_id":"r"}'), (0x12, '{}'),
+                     (0x13, '{}'), (0x42, ''), (0x00, '{}'), (0x10, '{"seq":3,"ts":1,"payload":"AA=="}'), (0x10, '{"seq":-1}'), (0x10, '{"seq":"x"}'),
+                     (0x10, ''), (0x10, '{"seq":3,"payload":"AA==","tag":"0011223344556677"}'), (0x14, '{"last_seq":"x"}'), (0x14, '{}'), (0x14, '')]:
+        add([{"op": "insert_raw", "j": 1, "k": ty, "v": body}])
+    add([{"op": "insert_raw", "j": 6, "k": 0x14, "v": '{}'}])
+    for v in ("zero", "huge"):
+        add([{"op": "insert_broken", "j": 1, "v": v}])
+        add([{"op": "insert_broken", "j": 0, "v": v}])
+    add([{"op": "raw_truncate", "i": 1}])
+    add([{"op": "raw_truncate", "i": 2}])
+    for ty in (0x14, 0x1F, 0x11, 0x7E):
+        add([{"op": "set_type", "i": 1, "k": ty}])
+    add([{"op": "set_type", "i": 2, "k": 0x10}])
+    for l0 in (1, 2, 4, 2 ** 40, 2 ** 64 - 1):
+        add(last0=l0)
+    add(key="other")
+    add(secret="other")
+    add(cluster="other")
+    for sk in (200, -200, 400, -400, 100000):
+        add(skew=sk)
+    add(outcomes=[3])
+    add(outcomes=[0, 3])                                               # failed apply right before a checkpoint
+    add(outcomes=[3, 3, 3, 3])
+    add(outcomes=[2], localwal=True)
+    add(outcomes=[1, 1], localwal=True)
+    add(outcomes=[0, 3, 0, 2], localwal=True)
+    add([{"op": "dup", "i": 0, "j": 1}], outcomes=[3, 0])             # failed apply, the adversary replays the same frame
+    add([{"op": "dup", "i": 1, "j": 2}], outcomes=[0, 3, 0])
+    # buffer full: capacity 1, nothing distributed until the end
+    w3 = [{"kind": "direct", "db": "", "payload": "01"}, {"kind": "wal", "db": "", "payload": "02"}, {"kind": "walmeta", "db": "", "payload": "03"}]
+    for cap, interval in ((1, 1), (2, 1), (1, 1024)):
+        out.append({"id": 0, "atomic": atomic, "cap": cap, "interval": interval, "writers": w3, "sched": seq_sched(w3, atomic, drain=False) + [DIST] * min(cap, 3),
+                    "edits": [], "recv": dict(recv0), "shape": "branch"})
+    out.append({"id": 0, "atomic": atomic, "cap": 1, "interval": 1, "writers": w3, "sched": seq_sched(w3, atomic, drain=False),
+                "edits": [], "recv": dict(recv0), "shape": "branch"})
+    return out
 
 
 def corpus_cases(atomic, start):
@@ -344,6 +466,11 @@ def corpus_cases(atomic, start):
 
 def is_hex(s):
     return re.fullmatch(r"[0-9a-fA-F]*", s) is not None and len(s) % 2 == 0
+
+
+def blen(s):
+    """Go len(string): bytes of the UTF-8 encoding"""
+    return len(s.encode("utf-8", "surrogatepass"))
 
 
 class Mapper:
@@ -403,7 +530,7 @@ class Mapper:
     def tag(self, t):
         if t == "":
             return "TagMissing"
-        if len(t) != 16:
+        if blen(t) != 16:
             return "TagBadLen"
         if not is_hex(t):
             return "TagBadHex"
@@ -413,7 +540,7 @@ class Mapper:
         return "(TagMac %s %s %s)" % (cn(k[0]), cz(k[1]), self.b(k[2]))
 
     def hashv(self, h):
-        if len(h) != 64:
+        if blen(h) != 64:
             return "HashBadLen"
         if not is_hex(h):
             return "HashBadHex"
@@ -495,7 +622,8 @@ def case_to_coq(c, r, tol):
 
 HEADER = ("From Coq Require Import List ZArith NArith Bool.\nFrom Arc Require Import Repl.Model.\nImport ListNotations.\n"
           "Open Scope Z_scope.\n")
-PREDS = {"agree": "case_agrees", "sound": "case_oracle_sound", "order": "case_oracle_order", "excl": "case_exclusive"}
+PREDS = {"agree": "case_agrees", "sound": "case_oracle_sound", "order": "case_oracle_order", "excl": "case_exclusive",
+         "queue": "case_queue_increasing", "dom": "case_unforgeable"}
 PREDS_DIAG = dict(PREDS, writer="writer_agrees", receiver="receiver_agrees")
 
 
@@ -551,7 +679,7 @@ def drop_thread(c, i):
     return sanitize(d)
 
 
-def shrink_case(c, fails, budget=24):
+def shrink_case(c, fails, budget=10):
     """Greedy: remove edits, then whole writer threads, then trailing distribution steps."""
     cur = c
     used = 0
@@ -582,7 +710,14 @@ def probe_mode():
     r = run_harness([witness_case(0, False, probe=True)], "probe")[0]
     if r.get("error"):
         raise vlib.TieBroken("C24 probe failed: " + r["error"])
-    return r["blocked_at"] >= 0, r
+    if r["blocked_at"] >= 0:
+        # serialised only on positive evidence: the second writer sits in a blocking wait state inside
+        # Sender.Replicate while the first one is parked between assignment and enqueue
+        if not r.get("blocked_in"):
+            raise vlib.TieBroken("C24 probe inconclusive: step %d of the witness schedule did not complete and no goroutine is "
+                                 "blocked inside Sender.Replicate" % r["blocked_at"])
+        return True, r
+    return False, r
 
 
 def setup():
@@ -636,10 +771,13 @@ def run(res, tier, seed):
     atomic, probe = probe_mode()
     res.stage("probe", t1)
     res.cov["implementation_serialises_assign_and_enqueue"] = atomic
+    res.cov["probe"] = {"witness_wire_order": [f["seq"] for f in probe["frames"] if f["type"] == 0x10], "receiver_reason": probe.get("reason"),
+                        "second_writer_blocked_in": probe.get("blocked_in")}
 
-    n = 420 if tier == "quick" else 6000
+    n = 330 if tier == "quick" else 6000
     cases = [witness_case(0, atomic)] if not atomic else []
     cases += corpus_cases(atomic, len(cases))
+    cases += branch_cases(atomic)
     base = len(cases)
     cases += [gen_case(rng, base + i, atomic) for i in range(n)]
     for i, c in enumerate(cases):
@@ -662,8 +800,11 @@ def run(res, tier, seed):
                        "channel capacities 1..10000, checkpoint intervals 1..1024) followed by 0-3 wire edits and a receiver configuration; non-trivial = "
                        ">= 2 writer goroutines whose steps interleave, or >= 1 edit that took effect; distinct by (cap, interval, writers, schedule, edits, receiver config)")
     res.cov["model_vs_impl_disagreements"] = len(bad["agree"]) + len(errors)
-    order_fail = sorted(bad["order"])
-    sound_fail = sorted(bad["sound"])
+    # cases outside the idealised-MAC hypothesis (the adversary held the receiver's key) are not judged
+    outside = sorted(bad["dom"])
+    res.cov["cases_outside_mac_hypothesis"] = len(outside)
+    order_fail = sorted(bad["order"] - bad["dom"])
+    sound_fail = sorted(bad["sound"] - bad["dom"])
     res.cov["oracle_failures"] = len(set(order_fail) | set(sound_fail))
     hist = {"writers": {}, "shape": {}, "edit_ops": {}, "reasons": {}, "non_exclusive_schedules": 0, "drops_reported": 0,
             "apply_failures": 0, "checkpoints_emitted": 0, "honest_wire": 0, "frames_on_wire": 0}
@@ -701,12 +842,12 @@ def run(res, tier, seed):
 
     reported = False
     # 1. harness-level errors: the real code could not be driven through the schedule
-    for i, msg in errors[:3]:
+    for i, msg in errors[:1]:
         res.violation("harness could not drive case %d: %s" % (i, msg), replay_obj("harness-error", cases[i], results[i], {"detail": msg}),
                       no_input=True, suffix="harness")
         reported = True
     # 2. soundness oracle fails on the implementation: always a violation, concrete input
-    for i in sound_fail[:3]:
+    for i in sound_fail[:2]:
         small = shrink_case(cases[i], fails_with("sound")) if len(sound_fail) < 40 else cases[i]
         rr = run_harness([dict(small, id=0)], "shrink")[0]
         res.violation("the real receiver/sender violated soundness (applied entry not sent / not strictly increasing / sequence not accounted for exactly once)",
@@ -715,13 +856,15 @@ def run(res, tier, seed):
     # 3. order/completeness oracle
     known_hits, unknown_order = [], []
     for i in order_fail:
-        if (not atomic) and known and i in bad["excl"] and i not in bad["agree"]:
-            known_hits.append(i)            # the model predicts exactly this wrong output, signature matches
+        if (not atomic) and known and i in bad["excl"] and i in bad["queue"]:
+            # signature matches (two writers inside the assign..enqueue window) and the failure IS the
+            # mis-ordered queue the refuted model predicts for such schedules (C24_writer_order_guarded
+            # excludes it for every other schedule); whether the rest of the run agrees with the model
+            # is judged separately below
+            known_hits.append(i)
         else:
             unknown_order.append(i)
-    for i in unknown_order[:3]:
-        if i in sound_fail[:3]:
-            continue
+    for i in ([] if reported else unknown_order[:2]):
         small = shrink_case(cases[i], fails_with("order")) if len(unknown_order) < 40 else cases[i]
         rr = run_harness([dict(small, id=0)], "shrink")[0]
         res.violation("queue order not increasing, or a healthy connection was dropped / did not apply every sent entry",
@@ -737,9 +880,7 @@ def run(res, tier, seed):
     res.cov["known_finding_cases"] = len(known_hits)
     # 4. model/implementation disagreement
     dis = sorted(bad["agree"])
-    for i in dis[:2]:
-        if i in sound_fail[:3] or i in unknown_order[:3]:
-            continue
+    for i in ([] if reported else dis[:2]):
         small = shrink_case(cases[i], fails_with("agree")) if len(dis) < 60 else cases[i]
         rr = run_harness([dict(small, id=0)], "shrink")[0]
         b2, _ = evaluate([dict(small, id=0)], [rr], tol, "Shrink", PREDS_DIAG)
@@ -775,7 +916,7 @@ def replay(res, path):
     r = run_harness([c], "replay")
     bad, errors = evaluate([c], r, tol, "Replay")
     known = [k for k in vlib.known_for(PID) if k.get("signature") == SIGNATURE]
-    is_known = (not atomic) and known and 0 in bad["excl"] and 0 not in bad["agree"] and 0 not in bad["sound"]
+    is_known = (not atomic) and known and 0 in bad["excl"] and 0 in bad["queue"] and 0 not in bad["agree"] and 0 not in bad["sound"]
     print("observed: wire order %s dropped %s | receiver applied %d, last %s, reason %s" % (
         [f["seq"] for f in (r[0].get("frames") or []) if f["type"] == 0x10], r[0].get("dropped"),
         sum(1 for a in (r[0].get("atts") or []) if a["ok"]), r[0].get("last"), r[0].get("reason")))
